@@ -183,7 +183,11 @@ def decide(mod, run, replay):
     C.write_evidence(
         run,
         prep,
-        trusted=list(getattr(mod, "TRUSTED", [])) + COMMON_TRUSTED,
+        trusted=list(getattr(mod, "TRUSTED", [])) + COMMON_TRUSTED + [
+            "translator harness/extract.py + harness/relx.py (exact-subset translation of the anchors of DESIGN.md 2.2); regenerated from "
+            "/repo/src on this run: " + (", ".join("Gen/" + g + ".lean" for g in prep.get("regenerated", [])) or "none"),
+            "modelled, not verified: the numerical oracles (quantile / OLS solvers, scipy bootstrap, norm.ppf, numpy generators), pandas "
+            "semantics of the idioms listed in DESIGN.md 3.2, binary64 rounding (DESIGN.md 3.1)"],
         checker_cmd=checker,
         violations=len(unknown) + (1 if (code == 1 and not unknown) else 0),
         extra={"build_s": prep.get("build_s"), "driver_lines": driver.lines if driver else 0, "regenerated_from_source": prep.get("regenerated", []),
